@@ -9,6 +9,12 @@ From PS Require Import Spec.SAM Spec.T10Opcodes Gen.Opcodes Gen.Misc Proofs.Opco
 Theorem C14_nothing_skipped : no_unknown_opcodes = true.
 Proof. vm_compute. reflexivity. Qed.
 
+(* the tables are exposed through class Enum: a name is looked up as an ordinary class attribute, so what a command set exposes under a name
+   is the table entry of that name and nothing else — the class has exactly the members Model/Enum.v was written for (no __getattr__ fallback
+   that would resolve an unlisted name to a similar entry), compared as syntax trees on every run *)
+Theorem C14_lookup_is_the_table : enum_class_unknown = nil.
+Proof. vm_compute. reflexivity. Qed.
+
 (* every named entry of every command set has the T10 value, and so has every service action *)
 Theorem C14_values : forall S tbl name oname v sas,
   In (S, tbl) command_sets -> In (name, (oname, v, sas)) tbl ->
